@@ -163,7 +163,8 @@ def kms_classify(inp, out):
     return ks
 
 
-ALL_EXTRACT = [{"args": ["states"], "out": "States.lean"}, {"args": ["keytypes"], "out": "KeyTypes.lean"}]
+ALL_EXTRACT = [{"args": ["states"], "out": "States.lean"}, {"args": ["keytypes"], "out": "KeyTypes.lean"},
+               {"args": ["panicsites"], "out": "PanicSites.lean"}]
 
 PROPS = {
     "C11": {
@@ -304,6 +305,30 @@ PROPS = {
                          "fragment (partial)", "signature primitives ideal", "compaction law: undefined members are dropped"],
         "assumptions": ["no @list container, no language maps, no @graph in the generated fragment",
                         "presentations and JWT-VC/VP are covered by C08 (JWS layer) and not driven here"],
+    },
+    "C03": {
+        "lean_files": ["AriesVerif/C03/Decoders.lean", "AriesVerif/C03/Sites.lean", "AriesVerif/C03/Drv.lean"],
+        "lake_targets": ["AriesVerif"],
+        "classify": lambda inp, out: ["entry:" + inp.split("|")[0], "variant:" + inp.split("|")[1].split(",")[0][:12],
+                                      "repl:" + str(int(inp.split("|")[3]) % 19), "out:" + out[:5]],
+        "nontrivial": lambda inp, out: out in ("ok", "err"),
+        "thorough_seeds": 2,
+        "case_timeout": 60,
+        "rule": "valid objects of the framework's own encoders (envelopes of all four packers in both serializations, compact "
+                "JWS/JWT of seven algorithms, LD-signed credentials of five suites and presentations, DID documents, did:key "
+                "strings, BBS+ proofs / signatures / keys, SD-JWT combined formats, presentation definitions, inbound messages of "
+                "present-proof / issue-credential (v2, v3), message pickup and mediator) confused at one position: a member "
+                "replaced by null / 0 / -1 / 2^32-1 / 1.5 / \"\" / string / bool / [] / [null] / {} / removed, a string cut, doubled, "
+                "its base64 content decoded, confused and encoded again, a number set to an extreme, bytes truncated / extended / "
+                "set to 0x00 / 0xff; the confused object goes to the real entry point in-process; non-trivial = the entry point "
+                "answered; distinct (entry, replacement class, outcome)",
+        "trusted_base": ["the sweep is a SEARCH (no theorem quantifies over the Go code of the entry points); proved: panic-"
+                         "freedom of the models in C03/Decoders.lean and, by the regenerated site / guard lists, that the "
+                         "listed functions contain exactly the accounted panic sites and still contain the guards relied upon",
+                         "go/ast lister of panic sites (cmd/extract/panicsites.go)"],
+        "assumptions": ["didexchange / legacyconnection / outofband / introduce inbound handlers are not driven by the sweep "
+                        "(they need a wired agent; C10 drives didexchange end to end)",
+                        "resource use is bounded by the per-case timeout only; allocation is not measured"],
     },
     "C14": {
         "lean_files": ["AriesVerif/C14/Model.lean", "AriesVerif/C14/Props.lean", "AriesVerif/C14/Drv.lean"],
